@@ -471,7 +471,7 @@ func genFloat64Bits(r *gen.RNG) uint64 {
 	case 0:
 		return r.U64()
 	case 1: // subnormal
-		return (r.U64() & 0x800f_ffff_ffff_ffff) >> uint(r.Intn(52)) & 0x800f_ffff_ffff_ffff | (r.U64() & (1 << 63))
+		return (r.U64()&0x800f_ffff_ffff_ffff)>>uint(r.Intn(52))&0x800f_ffff_ffff_ffff | (r.U64() & (1 << 63))
 	case 2: // power of two at every binary exponent
 		e := uint64(r.Range(0, 2046))
 		return e<<52 | (r.U64() & (1 << 63))
